@@ -447,6 +447,8 @@ class CliRules:
             ok = bounded is not None or not unbounded_src
             rec.ob('R17.b', 'R17.b@%s::bounded-string-write' % fkey(f), ok, nloc(node),
                    'formatted/string copy into %s from %s source' % (show(dst), 'a length-bounded' if ok else 'an UNBOUNDED command-line'))
+        rec.ob('R17.b', 'R17.b@%s::no-unbounded-copy-of-argv-text' % fkey(f), not any(o.rule == 'R17.b' and o.ok is False for o in rec.obls), where,
+               'no sprintf/strcpy/strcat of command-line text into a fixed buffer without a bound (%d formatted/string writes on the analysed paths)' % len(L.strw))
         # ---- R12.d default output name differs from the input path
         ndef = 0
         for node, mode, path in L.fopens:
